@@ -60,16 +60,28 @@ def run(chk: Check):
     reqs, metas = [], []
     # ---------------- (a) no mutation
     n_a = 8 if chk.tier == "quick" else 100
-    for _ in range(n_a):
+    for it_a in range(n_a):
         sp, bounds, prec = gen_space(rng, chk)
         if sp.dims > 4:
             continue
-        for name in NAMES:
+        for si, name in enumerate(NAMES):
             bs = rng.randint(1, 3)
             smp = ch.make_builtin(name, bs, ch.random_opts(name, rng) if rng.random() < 0.5 else ch.SMALL_OPTS.get(name), rng.randrange(10 ** 6))
             pts, _ = gen_history(rng, sp, rng.randint(max(bs, 5), 12))
-            kind = rng.choice(["extreme", "extreme", "ties"])
-            losses = extreme_losses(rng, len(pts)) if kind == "extreme" else np.array([float(rng.randint(0, 2)) for _ in range(len(pts))])
+            # every sampler meets every kind of loss vector within four spaces
+            kind = ["extreme", "ties", "offset", "extreme", "ordinary"][(it_a + si) % 5]
+            if kind == "extreme":
+                losses = extreme_losses(rng, len(pts))
+            elif kind == "ties":
+                losses = np.array([float(rng.randint(0, 2)) for _ in range(len(pts))])
+            elif kind == "offset":
+                # distinct finite losses that share a large offset: relative spread 1e-16 .. 1e-6 (below and above single precision)
+                off = rng.choice([1e6, -3e7, 1e12, 123456.789, 3e38])
+                rel = 10.0 ** rng.uniform(-15, -6)
+                losses = np.array([off * (1.0 + rel * (k + rng.random())) for k in range(len(pts))])
+                rng.shuffle(losses)
+            else:
+                losses = np.array([rng.random() * 5 for _ in range(len(pts))])
             p0, l0 = pts.tobytes(), losses.tobytes()
             outcome = "ok"
             with quiet(), warnings.catch_warnings():
@@ -268,7 +280,11 @@ def run(chk: Check):
             chk.disagree("BestBatchSampler draws do not follow the modelled sequence (parents, then per row: coordinates, (size, sign) per coordinate)", {"log_head": str(log[:6])[:300]})
             continue
         kth = np.sort(losses)[bs - 1]
-        cand = pts[np.argsort(losses)][:bs]
+        order_bb = np.argsort(losses)
+        with np.errstate(all="ignore"):
+            if sorted(order_bb.tolist()) != list(range(len(losses))) or any(losses[order_bb[i]] > losses[order_bb[i + 1]] for i in range(len(losses) - 1)):
+                chk.fail("np.argsort did not return a sorting permutation (contract)", case)
+        cand = pts[order_bb][:bs]
         for r in range(bs):
             parent = cand[parents[r]]
             pl = [losses[i] for i in range(len(pts)) if pts[i].tobytes() == parent.tobytes()]
@@ -289,9 +305,11 @@ def run(chk: Check):
                 near = gcol[j][np.argmin(np.abs(gcol[j] - want[j]))]
                 if not (abs(out[r][j] - want[j]) <= abs(near - want[j]) + 1e-12 * max(1.0, abs(want[j]))):
                     chk.fail(f"best-batch proposal coordinate {j} = {out[r][j]!r} is not the displaced parent {want[j]!r} confined to the space", case)
-            reqs.append(f"smp.bestbatch {sp.dims} " + " ".join(f2h(x) for x in sp.parameters_precision.tolist()) + " " + " ".join(f2h(x) for x in sp.parameters_bounds[0].tolist())
-                        + " " + " ".join(f2h(x) for x in sp.parameters_bounds[1].tolist()) + " " + " ".join(fl(gc) for gc in gcol) + " " + " ".join(f2h(x) for x in parent.tolist())
-                        + f" {len(sh)} " + " ".join(f"{c} {s} {int(p)}" for c, s, p in sh))
+            # the model chooses the parent itself (Samplers.bestBatchParent) from the history, numpy's argsort order, batch size and drawn position
+            reqs.append(f"smp.bestbatch2 {sp.dims} " + " ".join(f2h(x) for x in sp.parameters_precision.tolist()) + " " + " ".join(f2h(x) for x in sp.parameters_bounds[0].tolist())
+                        + " " + " ".join(f2h(x) for x in sp.parameters_bounds[1].tolist()) + " " + " ".join(fl(gc) for gc in gcol)
+                        + f" {len(order_bb)} " + " ".join(map(str, order_bb.tolist())) + f" {len(pts)} " + " ".join(f2h(x) for x in np.asarray(pts, dtype=float).flatten().tolist())
+                        + f" {bs} {parents[r]}" + f" {len(sh)} " + " ".join(f"{c} {s} {int(p)}" for c, s, p in sh))
             metas.append(("bb", rec[-1][0][r] if rec else None, out[r]))
     answers = lean_run(reqs) if reqs else []
     for (kind, a, b), ans in zip(metas, answers):
@@ -303,6 +321,9 @@ def run(chk: Check):
         else:
             ans = ans.replace("8000000000000000", "0000000000000000")      # -0.0 == 0.0: sign of zero is not observable for grid membership
             f2h0 = lambda x: f2h(x + 0.0 if x != 0 else 0.0)
+            if " | " not in ans:
+                chk.disagree(f"BlackIt.Samplers.bestBatchParent has no parent where the implementation produced a proposal ({ans})", {"impl": [f2h(x) for x in b]})
+                continue
             pre, post = ans.split(" | ")
             if a is not None and " ".join(f2h0(x) for x in np.asarray(a).tolist()) != pre:
                 chk.disagree("best-batch row before snapping != BlackIt.Samplers.applyShocks on the recorded draws", {"impl": [f2h(x) for x in a], "model": pre})
